@@ -32,18 +32,22 @@ from oslo_config import cfg  # noqa: E402
 from yabgp.message.update import Update  # noqa: E402
 
 # ---------------------------------------------------------------------------------------------- pools
-PREFIXES = ['10.1.0.0/16', '10.2.0.0/16', '192.168.3.0/24']          # pairwise disjoint
+PREFIXES = ['10.1.0.0/16', '10.2.0.0/16', '192.168.3.0/24',         # pairwise disjoint (the exhaustive alphabets use these)
+            '0.0.0.0/0', '10.4.0.0/15', '10.9.9.9/32']                # the random histories also: default route, /15, host route
 # path attributes as the decoder returns them (received side)
 RECV_ATTRS = [
     {1: 0, 2: [(2, [65002])], 3: '10.0.0.2'},
     {1: 0, 2: [(2, [65002])], 3: '10.0.0.2', 4: 50},
     {1: 2, 2: [(2, [65002, 64999])], 3: '10.0.0.2', 8: ['65002:7']},
+    {1: 1, 2: [(2, [65002])], 3: '10.0.0.2', 5: 150},
 ]
 # path attributes as they arrive in the JSON body of POST /v1/peer/<ip>/send/update (sent side)
 SEND_ATTRS = [
     {1: 0, 2: [[2, [65001]]], 3: '10.0.0.1', 5: 100},
     {1: 0, 2: [[2, [65001]]], 3: '10.0.0.1', 5: 200},
     {1: 2, 2: [[2, [65001, 64999]]], 3: '10.0.0.1', 5: 100, 8: ['65001:7']},
+    # no LOCAL_PREF in the request: on an iBGP session the view sends (and the tables hold) the documented default 100
+    {1: 0, 2: [[2, [65001]]], 3: '10.0.0.1'},
 ]
 # flowspec rules as decoded (integer keys); the REST layer sends the same rules with string keys
 FS_RULES = [
@@ -260,10 +264,12 @@ BAD_UPDATE = SG.frame(2, SG.update_body(nlri=bytes([16, 10, 1]), attrs=bytes.fro
 class RealRib(object):
     """one peering of the real implementation with RIB maintenance switched on (or off)"""
 
-    def __init__(self, rib=True, ids=None):
+    def __init__(self, rib=True, ids=None, ibgp=False):
         self.ids = ids or Intern()
         self.rib = rib
-        self.sim = S.Sim({'rib': bool(rib)})
+        self.ibgp = bool(ibgp)
+        self.last_eff_attr = None
+        self.sim = S.Sim({'rib': bool(rib), 'remote_as': S.DEFAULT_CFG['local_as']} if ibgp else {'rib': bool(rib)})
         self.sim.step({'k': 'boot'})
         self.cid = 0
         self.connected = False
@@ -334,6 +340,11 @@ class RealRib(object):
                 body = json.dumps({'attr': {str(k): v for k, v in attr.items()}, 'nlri': nlri, 'withdraw': withdraw})
             except (TypeError, ValueError):
                 via_view = False
+        # what the request asks the agent to send: the attributes given plus, on an iBGP session, the documented default
+        # LOCAL_PREF 100 when the request (through the view) names attributes but no LOCAL_PREF
+        self.last_eff_attr = dict(attr)
+        if via_view and self.ibgp and attr and 5 not in attr:
+            self.last_eff_attr[5] = 100
         if via_view:
             def go():   # noqa: F811
                 client = _client()          # (importing the application registers the [rest] options)
